@@ -29,8 +29,8 @@ MUTANTS = [
     ('m03', 'C05', 'break', 'skoolkit/simulator.py', "self.af_r(r, R1, 4, 1, ADD, C),", "self.af_r(r, R1, 4, 1, ADC[1], C),", 'opcodes:81,opcodes:80'),
     ('m04', 'C19', 'break', 'skoolkit/cmiosimulator.py',
      "                delay = contend(tm, ((pc, 4), ((pc + 1) % 65536, 4), (pc2, 3), (pc2, 1), (pc2, 1), (pc2, 1), (pc2, 1), (pc2, 1), (xy, 3)))\n            else:\n                delay = 0\n            registers[:2] = af[registers[0]][memory[xy]]",
-     "                delay = contend(tm, ((pc, 4), ((pc + 1) % 65536, 4), (pc2, 3), (pc2, 1), (pc2, 1), (pc2, 1), (pc2, 1), (pc2, 1), (xy, 2)))\n            else:\n                delay = 0\n            registers[:2] = af[registers[0]][memory[xy]]", 'after_DD:86,after_FD:A6'),
-    ('m05', 'C19', 'break', 'skoolkit/cmiosimulator.py', "            self.t0 = CONTENTION_INTERVALS[0][0] - 23", "            self.t0 = CONTENTION_INTERVALS[0][0] - 22", 'after_DDCB:06,opcodes:E3'),
+     "                delay = contend(tm, ((pc, 4), ((pc + 1) % 65536, 4), (pc2, 4), (pc2, 1), (pc2, 1), (pc2, 1), (pc2, 1), (pc2, 1), (xy, 3)))\n            else:\n                delay = 0\n            registers[:2] = af[registers[0]][memory[xy]]", 'after_DD:86,after_FD:A6'),
+    ('m05', 'C19', 'break', 'skoolkit/cmiosimulator.py', "            self.t0 = CONTENTION_INTERVALS[0][0] - 23", "            self.t0 = CONTENTION_INTERVALS[0][0] - 3", 'after_DDCB:06,opcodes:E3'),
     ('m06', 'C05', 'break', 'skoolkit/simtables.py', "        (a + ((d > 3 or a % 16 > 9) * 6 +", "        (a + ((d > 3 or a % 16 > 8) * 6 +", 'opcodes:27'),
     ('m07', 'C08', 'break', 'skoolkit/pagingtracer.py',
      "    def write_port(self, registers, port, value, offset):\n        if port % 2 == 0:\n            self.border = value % 8\n            self.outfe = value\n        if port & 0x8002 == 0 and",
